@@ -11,8 +11,20 @@
 
   Types2Rfc     oracle: the same cases judged against the RFC 7950 section 9 / RFC 4648 reading written in Python.
 
-Tag of the one listed finding (known_findings.d/types2.json); anything else is reported untagged (None):
+  DerivedRfc    oracle: the ietf-inet-types / ietf-yang-types derived types and identityref against a Python reference
+                written from RFC 6991, RFC 5952 and RFC 3339: canonical string, idempotence, equality and duplicate
+                detection modulo canonical form, order independence of sorted insertion.
+  Ip4PrefixHost T2: TypesMore.ip4p_store (ipv4prefix_zero_host) for every prefix length.
+
+Tags of the listed findings (known_findings.d/types2.json); anything else is reported untagged (None):
   union-member-eq       union values of different member types with the same canonical string are not equal
+  dt-lexical            date-and-time: the pattern of the type is never checked (patch types2-6)
+  dt-day-overflow       date-and-time: day 30 of February etc. normalised instead of refused (libyang's unit tests require it)
+  dt-sort-overflow      date-and-time: sort callback returns a time difference that does not fit int (patch types2-7)
+  dt-sort-eq            date-and-time: sort callback says equal for values the compare callback distinguishes (unit tests require it)
+  dt-year-10000         date-and-time: canonical string with a 5-digit year is not accepted again
+  idref-any-base        identityref with several bases accepts an identity derived from any of them (patch types2-8)
+  idref-empty-prefix    identityref value :name accepted
 Retired tags (fixed in /repo, the regression cases stay in the generators and a reappearance is a violation):
   binary-pad-bits c0ee3aa (non-zero unused base64 bits: canonical string now re-encoded), str-nonchar d2cc93f
   (noncharacters refused by ly_getutf8/ly_checkutf8), yang-plane4-char f25b870, dt-str2time-overread 9ddb75e,
@@ -876,7 +888,30 @@ class Types2Rfc:
         return rfc_witness(line, out)
 
 
-ALL = [EnumStore, BitsStore, BinStore, StrLenStore, UnionStore, Cmp2, Sort2]
+class Ip4PrefixHost(Comp):
+    """ipv4-prefix a.b.c.d/len stored through lyd_new_term: address of the canonical string vs TypesMore.ip4p_store
+    (ipv4prefix_zero_host), every prefix length with boundary and random addresses"""
+    name = "t2-ip4p"
+    driver = "t_types2"
+    slice = "types2"
+
+    def gen(self, rng, tier, scale=1.0):
+        L = []
+        for n in range(0, 35):
+            for a in V4_PTS + [rng.getrandbits(32) for _ in range(self.n(tier, 6, 400, scale))]:
+                L.append("ip4z\t%d\t%d" % (a, n))
+        return L
+
+    def witness(self, line, m, o):
+        f = line.split("\t")
+        a, n = int(f[1]), int(f[2])
+        want = "E" if n > 32 else "%d %d" % (a & (0xFFFFFFFF << (32 - n)) & 0xFFFFFFFF, n)
+        if o != want:
+            return None, "ipv4-prefix %s/%d: stored %s, RFC 6991 (host bits zero) %s" % (v4_text(a), n, o, want)
+        return None
+
+
+ALL = [EnumStore, BitsStore, BinStore, StrLenStore, UnionStore, Cmp2, Sort2, Ip4PrefixHost]
 
 
 # ------------------------------------------------------------------------------------------------
@@ -1188,6 +1223,9 @@ class DerivedRfc:
                 L.append("dupl\t%s\t%s\t%s" % (T, hexs(a), hexs(b)))
             for _ in range(n // 2):
                 L.append("perm\t%s\t%s" % (T, "\t".join(hexs(rng.choice(good)) for _ in range(3))))
+        for trio in ((b"2100-02-28T12:00:00.0-00:00", b"2100-02-28T12:00:00.000+00:00", b"2100-02-28T12:00:00Z"),
+                     (b"1969-12-31T23:59:59Z", b"1900-03-01T00:00:00+01:00", b"2038-01-19T03:14:08.000+23:59")):
+            L.append("perm\tdt\t" + "\t".join(hexs(x) for x in trio))
         # prefix length 0 and full length with host bits, in every form (regression of a seeded change)
         for T, a, b in (("ip4p", b"192.168.254.55/0", b"0.0.0.0/0"), ("ipp", b"1.2.3.4/0", b"0.0.0.0/0"), ("ip6p", b"2001:db8::1/0", b"::/0"),
                         ("ipp", b"ffff::1/0", b"::/0"), ("ip4p", b"1.2.3.4/32", b"1.2.3.4/32"), ("ip6p", b"::1/128", b"0:0::1/128")):
@@ -1243,11 +1281,24 @@ class DerivedRfc:
         if T == "dt" and f0 == "ci":
             tok = out.split(" ")
             if want is None and tok[0] != "E":
-                return "dt-lexical"              # accepted although outside the RFC 6991 pattern / RFC 3339 5.7 calendar rules
+                # accepted although outside the RFC 6991 pattern (dt-lexical) / with a day the month does not have
+                # (dt-day-overflow: normalised by timegm(), required by libyang's own unit tests)
+                t = _txt(vals[0])
+                m = t and re.fullmatch(r"(\d{4})-(\d{2})-(\d{2})T\d{2}:\d{2}:\d{2}(\.\d+)?(Z|[+-]\d{2}:\d{2})", t)
+                if m and 1 <= int(m.group(2)) <= 12 and calendar.monthrange(int(m.group(1)) or 4, int(m.group(2)))[1] < int(m.group(3)) <= 31:
+                    return "dt-day-overflow"
+                return "dt-lexical"
             if len(tok) == 2 and tok[1] == "E" and unhex(tok[0]).startswith(b"10000-"):
                 return "dt-year-10000"
         if T == "dt" and f0 == "perm" and out.startswith("DIFF"):
-            return "dt-sort"
+            # same instant (zone and zero fractions aside) among the values: the sort callback says equal (dt-sort-eq);
+            # otherwise the int overflow of the time difference (dt-sort-overflow)
+            def instant(v):
+                c = ref_derived("dt", v).decode()
+                m = re.fullmatch(r"(.*T\d{2}:\d{2}:\d{2})(\.\d+)?([+-]\d{2}:\d{2})", c)
+                return m.group(1), (m.group(2) or "").rstrip("0").rstrip(".")
+            keys = [instant(v) for v in vals]
+            return "dt-sort-eq" if len(set(keys)) < len(keys) else "dt-sort-overflow"
         if T == "idr" and f0 == "ci" and want is None and re.fullmatch(rb"(types2:)?i[ab]", vals[0]):
             return "idref-any-base"
         if T == "idr" and f0 == "ci" and want is None and vals[0].startswith(b":") and ref_derived(T, vals[0][1:]) is not None:
